@@ -104,7 +104,7 @@ class TransferManager(BaseManager):
         self._ticket_generator = ticket_generator()
 
         self._transfers: list[Transfer] = []
-        self._file_connection_futures: dict[int, asyncio.Future] = {}
+        self._file_connection_futures: dict[tuple[Optional[str], int], asyncio.Future] = {}
         self._progress_reporting_task: BackgroundTask = BackgroundTask(
             interval=self._settings.transfers.report_interval,
             task_coro=self._progress_reporting_job,
@@ -868,7 +868,9 @@ class TransferManager(BaseManager):
 
         # Already create a future for the incoming connection
         file_connection_future: asyncio.Future = asyncio.Future()
-        self._file_connection_futures[request.ticket] = file_connection_future
+        # Tickets are chosen by the uploader: two uploaders can use the same
+        # number at the same time, the username is part of the key
+        self._file_connection_futures[(transfer.username, request.ticket)] = file_connection_future
 
         try:
             async with atimeout(60):
@@ -1318,7 +1320,7 @@ class TransferManager(BaseManager):
                 return
 
             try:
-                self._file_connection_futures[ticket].set_result(connection)
+                self._file_connection_futures[(connection.username, ticket)].set_result(connection)
 
             except KeyError:
                 logger.warning("did not find a task waiting for file connection with ticket : %d", ticket)
